@@ -21,7 +21,7 @@ RULE = ("(a) 2-8 threads per side create channels concurrently (newchannel, remo
         "In-process pairs and real popen/socket/via workers. distinct = distinct runs/cycle shapes x schedules")
 ASSUMPTIONS = ["quiescence is polled with gc.collect() on both sides for up to 5 s (un-registration is asynchronous w.r.t. the peer)"]
 MINIMUM = {"ids_allocated": 2000, "cycles": 1500, "transfers": 150, "sweep_fired": 20}
-SHARD_TIMEOUT = {"quick": 200, "thorough": 2400}
+SHARD_TIMEOUT = {"quick": 120, "thorough": 2400}
 
 SHAPES = ["close_local", "close_remote", "end_of_exec", "drop_local", "drop_remote", "error", "callback", "callback_drop",
           "remote_status", "nested_transfer", "exec_error"]
